@@ -76,9 +76,12 @@ Record act := mk_act {
   a_name : nat;         (* 0 = unnamed *)
   a_sup : nat;          (* 0 = none, else index of the supervisor + 1 *)
   a_flags : nat;        (* bit0 pre_start fails, 1 post_start, 2 pre_stop, 3 post_stop,
-                           4 as a supervisor: stop the child on ActorStarted, 5 spawn future dropped *)
+                           4 as a supervisor: stop the child on ActorStarted, 5 spawn future dropped,
+                           6 post_stop waits until the harness (a caller) signals *)
   a_gated : bool;
-  a_res : nat           (* what spawn returned *)
+  a_res : nat;          (* what spawn returned; 0 while the spawn is still pending *)
+  a_pending : bool;     (* spawn begun with a gated pre_start: name reserved, pre_start not finished *)
+  a_psopen : bool       (* flag bit6: post_stop waits for a signal; true once it was given *)
 }.
 
 Record grp := mk_grp { g_members : list (nat * nat);  (* (member id, actor) *)
@@ -104,9 +107,11 @@ Definition w_calls v s := mk_sys (acts s) (reg s) (grps s) v (ok s).
 Definition fail_sys s := mk_sys (acts s) (reg s) (grps s) (calls s) false.
 
 Definition w_ast (a : act) (v : ast) : act :=
-  mk_act v (a_present a) (a_name a) (a_sup a) (a_flags a) (a_gated a) (a_res a).
+  mk_act v (a_present a) (a_name a) (a_sup a) (a_flags a) (a_gated a) (a_res a) (a_pending a) (a_psopen a).
 Definition w_gated (a : act) (v : bool) : act :=
-  mk_act (a_st a) (a_present a) (a_name a) (a_sup a) (a_flags a) v (a_res a).
+  mk_act (a_st a) (a_present a) (a_name a) (a_sup a) (a_flags a) v (a_res a) (a_pending a) (a_psopen a).
+Definition w_psopen (a : act) (v : bool) : act :=
+  mk_act (a_st a) (a_present a) (a_name a) (a_sup a) (a_flags a) (a_gated a) (a_res a) (a_pending a) v.
 
 Definition set_act (s : sys) (i : nat) (a : act) : sys := w_acts (set_nth (acts s) i a) s.
 
@@ -187,6 +192,7 @@ Definition progress (s : sys) (i : nat) : option sys :=
     | PDrain _ => plain EDrain
     | PDropRx _ => plain EDropRx
     | PPostStop _ =>
+      if flag a 6 && negb (a_psopen a) then None else
       go (EPostStop (negb (flag a 3))) (fun st' =>
         let s1 := set_act s i (w_ast a st') in
         let s2 := if Nat.eqb (a_name a) 0 then s1 else rdo s1 (RRelease i) in
@@ -222,7 +228,7 @@ Definition sres_code (r : sres) : N := match r with SOk => 1 | SFull => 2 | SClo
 
 Definition op_spawn (s : sys) (name cp flags sup1 : nat) : sys * list N :=
   let i := length (acts s) in
-  let absent r := mk_act (init cp) false name sup1 flags false r in
+  let absent r := mk_act (init cp) false name sup1 flags false r false false in
   let taken := if Nat.eqb name 0 then false
                else match tfind name (table (reg s)) with Some _ => true | None => false end in
   if taken then (rdo (w_acts (acts s ++ [absent 2]) s) (RReserve i name false), [2%N]) else
@@ -238,12 +244,49 @@ Definition op_spawn (s : sys) (name cp flags sup1 : nat) : sys * list N :=
       | None => (fail_sys s1, [])
       | Some st2 =>
         let r := if dropped then 5 else 1 in
-        (w_acts (acts s1 ++ [mk_act st2 true name sup1 flags false r]) s1, [NN r])
+        (w_acts (acts s1 ++ [mk_act st2 true name sup1 flags false r false false]) s1, [NN r])
       end
     else
       let s1 := if Nat.eqb name 0 then s0 else rdo s0 (RRelease i) in
       let r := if Nat.testbit flags 5 then 5 else 3 in
-      (w_acts (acts s1 ++ [mk_act st1 true name sup1 flags false r]) s1, [NN r])
+      (w_acts (acts s1 ++ [mk_act st1 true name sup1 flags false r false false]) s1, [NN r])
+  end.
+
+(* spawn whose pre_start is gated by the harness: the name is reserved, the
+   actor task sits in pre_start until op_spawn_finish *)
+Definition op_spawn_begin (s : sys) (name cp flags sup1 : nat) : sys * list N :=
+  let i := length (acts s) in
+  let taken := if Nat.eqb name 0 then false
+               else match tfind name (table (reg s)) with Some _ => true | None => false end in
+  if taken then
+    (rdo (w_acts (acts s ++ [mk_act (init cp) false name sup1 flags false 2 false false]) s)
+         (RReserve i name false), [2%N])
+  else
+    let s0 := if Nat.eqb name 0 then s else rdo s (RReserve i name true) in
+    (w_acts (acts s0 ++ [mk_act (init cp) true name sup1 flags false 0 true false]) s0, [1%N]).
+
+Definition op_spawn_finish (s : sys) (i : nat) : sys * list N :=
+  match nth_error (acts s) i with
+  | Some a =>
+    if a_pending a then
+      let pre_ok := negb (flag a 0) in
+      match step (a_st a) (EPreStart pre_ok) with
+      | None => (fail_sys s, [])
+      | Some st1 =>
+        let named := negb (Nat.eqb (a_name a) 0) in
+        let fin st r := mk_act st true (a_name a) (a_sup a) (a_flags a) false r false false in
+        if pre_ok then
+          let s1 := if named then rdo s (RActivate i) else s in
+          match step st1 (EStartAck true) with
+          | Some st2 => (set_act s1 i (fin st2 1), [1%N])
+          | None => (fail_sys s1, [])
+          end
+        else
+          let s1 := if named then rdo s (RRelease i) else s in
+          (set_act s1 i (fin st1 3), [3%N])
+      end
+    else (s, [0%N])
+  | None => (s, [0%N])
   end.
 
 Definition op_send (s : sys) (i : nat) (m : msg) : sys * sres * bool :=
@@ -289,6 +332,20 @@ Definition op_gsend (s : sys) (g : nat) (m : msg) : sys * nat * option nat :=
       end
     | GBack full => (s1, if full then 2 else 3, None)
     end
+  end.
+
+(* result of a call: 1 reply, 2 full, 3 closed, 4 no reply, 9 never answered *)
+Definition call_result (s : sys) (c : nat * msg * nat) : N :=
+  let '(ai, m, st0) := c in
+  if negb (Nat.eqb st0 1) then NN st0 else
+  match nth_error (acts s) ai with
+  | Some a =>
+    let st := a_st a in
+    if existsb (msg_eqb m) (released st) then
+      (if existsb (msg_eqb m) (finished st) && match mbeh m with BOk => true | _ => false end
+       then 1%N else 4%N)
+    else 9%N
+  | None => 9%N
   end.
 
 Definition op (s : sys) (code a b c d : nat) : sys * list N :=
@@ -347,6 +404,14 @@ Definition op (s : sys) (code a b c d : nat) : sys * list N :=
           let '(s1, r, dest) := op_gsend s a m in
           (w_calls (calls s1 ++ [(match dest with Some ai => ai | None => 999 end, m, r)]) s1,
            [NN r])
+  | 12 => op_spawn_begin s a b c d
+  | 13 => op_spawn_finish s a
+  | 14 => (* the caller of call number a has its answer; only then it lets post_stop of actor b go on *)
+          let r := match nth_error (calls s) a with Some cl => call_result s cl | None => 0%N end in
+          (match nth_error (acts s) b with
+           | Some x => set_act s b (w_psopen x true)
+           | None => s
+           end, [r])
   | _ => (s, [99999%N])
   end.
 
@@ -373,6 +438,23 @@ Fixpoint release_all (s : sys) (i n : nat) : sys :=
               | None => s
               end in
     release_all s1 (S i) k
+  end.
+
+(* graceful end, first: every pending spawn is let through, every post_stop may go on *)
+Fixpoint finish_pending (s : sys) (i n : nat) : sys :=
+  match n with
+  | O => s
+  | S k => finish_pending (quiesce FUEL (fst (op_spawn_finish s i))) (S i) k
+  end.
+Fixpoint open_all (s : sys) (i n : nat) : sys :=
+  match n with
+  | O => s
+  | S k =>
+    let s1 := match nth_error (acts s) i with
+              | Some x => set_act s i (w_psopen x true)
+              | None => s
+              end in
+    open_all s1 (S i) k
   end.
 
 Fixpoint stop_all (s : sys) (i n : nat) : sys :=
@@ -428,20 +510,6 @@ Definition act_trailer (a : act) : list N :=
   let t := tr (a_st a) in
   [NN (length t)] ++ map lev_code t ++ [fin_code a].
 
-(* result of a call: 1 reply, 2 full, 3 closed, 4 no reply, 9 never answered *)
-Definition call_result (s : sys) (c : nat * msg * nat) : N :=
-  let '(ai, m, st0) := c in
-  if negb (Nat.eqb st0 1) then NN st0 else
-  match nth_error (acts s) ai with
-  | Some a =>
-    let st := a_st a in
-    if existsb (msg_eqb m) (released st) then
-      (if existsb (msg_eqb m) (finished st) && match mbeh m with BOk => true | _ => false end
-       then 1%N else 4%N)
-    else 9%N
-  | None => 9%N
-  end.
-
 Definition run_kind1 (l : list N) : list N :=
   match l with
   | _w :: endmode :: n :: r =>
@@ -451,7 +519,7 @@ Definition run_kind1 (l : list N) : list N :=
     | Some (s1, out) =>
       let na := length (acts s1) in
       let s3 := if N.eqb endmode 0
-                then stop_all (quiesce FUEL (release_all s1 0 na)) 0 na
+                then stop_all (quiesce FUEL (open_all (release_all (finish_pending s1 0 na) 0 na) 0 na)) 0 na
                 else quiesce FUEL (cancel_all s1 0 na) in
       if ok s3 then
         out ++ [NN na] ++ flat_map act_trailer (acts s3)
@@ -714,5 +782,6 @@ Definition run_c19 (l : list N) : list N :=
   | 2%N :: r => run_kind2 r
   | 3%N :: _ => [3%N]        (* concurrent process-group programs are judged by the oracle only *)
   | 4%N :: r => run_kind4 r
+  | 5%N :: _ => [5%N]        (* post_stop waiting for concurrent callers: judged by the oracle only *)
   | _ => BAD_CASE
   end.
